@@ -97,7 +97,7 @@ def random_config(rng: random.Random, *, seg=None, ndim=None, allow3d_shape=True
                     # domain error' on flat / collinear masks; callers may still opt out)
                     continue
                 extra.append(k)
-    return Config(
+    cfg = Config(
         ndim=nd,
         seg=sg,
         scale=scale,
@@ -107,7 +107,10 @@ def random_config(rng: random.Random, *, seg=None, ndim=None, allow3d_shape=True
         T=rng.choice([1, 2, 3, 4, 5, 6, 7, 3, 4, 5, 6, 7]),
         seg_dtype=rng.choice(["int64", "int64", "int32", "uint16", "uint32", "uint64"]),
         max_per_frame=rng.choice([2, 3, 3, 4]),
-        id_kind=rng.choice(["contig", "sparse"] if sg else ["contig", "sparse", "zero"]),
+        # (ids in the millions only without a label image: scikit-image's regionprops
+        # allocates one slot per label value, which makes every measurement crawl)
+        id_kind=rng.choice(["contig", "sparse"] if sg
+                           else ["contig", "sparse", "zero", "huge"]),
         skip_prob=rng.choice([0.0, 0.2, 0.2, 0.5]),
         seed=rng.randrange(1 << 30),
         custom=rng.random() < 0.4,
@@ -119,6 +122,9 @@ def random_config(rng: random.Random, *, seg=None, ndim=None, allow3d_shape=True
         rename=tuple(r for r in (("iou", "overlap"), ("area", "size"))
                      if sg and rng.random() < 0.15 and (r[0] != "iou" or "iou" in extra)),
     )
+    if cfg.id_kind == "huge" and cfg.seg_dtype == "uint16":
+        cfg.seg_dtype = "uint32"  # the labels must fit the dtype
+    return cfg
 
 
 def big_config(rng: random.Random, seg=True) -> Config:
@@ -157,6 +163,13 @@ def random_forest(rng: random.Random, T: int, max_per_frame: int, id_kind: str =
     if id_kind == "sparse":
         ids = sorted(rng.sample(range(1, 4 * n + 20), n))
         rng.shuffle(ids)
+    elif id_kind == "huge":
+        # ids that encode the frame (frame * 1_000_000 + k): far apart and sparse
+        ids = [1_000_000 * (i % 7 + 1) + rng.randrange(1, 5000) + i for i in range(n)]
+        rng.shuffle(ids)
+        ids = list(dict.fromkeys(ids))
+        while len(ids) < n:
+            ids.append(max(ids) + 1)
     elif id_kind == "zero":
         # ids that include 0 (legal without a label image: trackers that number spots
         # from 0, candidate-graph style ids); 0 is a random node, often an ancestor
@@ -407,11 +420,19 @@ def build_tracks(cfg: Config):
             rows.append(row)
         df = pd.DataFrame(rows)
         nm: dict[str, Any] = {"time": "time", "id": "id", "parent_id": "parent_id"}
+        feats = None
         if cfg.seg:
             nm["seg_id"] = "seg_id"
+            if cfg.seed % 3 == 0:
+                # the table also carries a (stale) area column that is mapped, and the
+                # caller asks for the measurement to be recomputed from the masks
+                df["area"] = [1000.0 + i for i in range(len(df))]
+                nm["area"] = "area"
+                feats = {"Area": "Recompute"}
         else:
             nm["pos"] = list(axes)
-        tracks = tracks_from_df(df, segmentation=seg, scale=scale, node_name_map=nm)
+        tracks = tracks_from_df(df, segmentation=seg, scale=scale, node_name_map=nm,
+                                features=feats)
     else:
         raise ValueError(build)
     if cfg.extra and cfg.seed % 2:
